@@ -406,7 +406,9 @@ def spec_raw_color(mode, color):
     c0, c1, c2, k = color
     if mode == 'raw':
         h, s, b = c0, c1, c2
-        return [Approx(clamp(h, 0, 65535)), Approx(clamp(s, 0, 65535)),
+        # hue is an angle in raw units too: 65535 and 0 are the same angle (matters after a unit
+        # switch of a hue within rounding distance of a full turn)
+        return [Approx(clamp(h, 0, 65535), circ=65535), Approx(clamp(s, 0, 65535)),
                 Approx(clamp(b, 0, 65535)), Approx(clamp(k, 0, 65535))]
     if mode == 'logical':
         h = fmod(c0, 360) / 360 * 65535
